@@ -332,12 +332,13 @@ fn gen_content_op(allow_stream: bool) -> Op {
     match t::weighted(&[4, 2, 2, 2, 2, if allow_stream { 2 } else { 0 }]) {
         0 => Op::Text(match t::draw(3) {
             0 => t::string(VAL, 0, 40),
-            1 => "x".repeat(t::len_near(&[0, 1, 1000, 4096, 70_000], 80_000)),
+            // (wave 17: also the lengths at which the decimal rendering of the length gains a digit)
+            1 => "x".repeat(t::len_near(&[0, 1, 10, 100, 1000, 4096, 10_000, 65_536, 70_000], 80_000)),
             _ => format!("{}é€😀", t::string(VAL, 0, 10)),
         }),
         1 => Op::Html(format!("<p>{}</p>", t::string(b"abc <>&", 0, 30))),
         2 => Op::Json(t::pick(&["{\"a\":1}", "[]", "null", "{\"k\":\"v\u{e9}\",\"n\":[1,2,3]}", "\"str\"", "12345"]).to_string()),
-        3 => Op::Payload(t::draw(4) as usize, t::bytes(0, 300)),
+        3 => Op::Payload(t::draw(4) as usize, if t::chance(1, 4) { vec![b'p'; t::len_near(&[9, 10, 99, 100, 101, 999, 1000], 1100)] } else { t::bytes(0, 300) }),
         4 => Op::DropContent,
         _ => {
             let n = t::range(0, 4) as usize;
